@@ -14,6 +14,7 @@ import (
 	"sort"
 	"sync"
 	"testing"
+	"time"
 
 	"github.com/zmap/zlint/v3/lint"
 	"pgregory.net/rapid"
@@ -406,32 +407,43 @@ func TestC16(t *testing.T) {
 		}
 	}
 	// genuinely self-signed roots with keys around the 2048 threshold
+	// ... under the base's own validity and under validity periods on every side of the 2011 and 2014 dates
+	day := func(y, m, d int) time.Time { return time.Date(y, time.Month(m), d, 0, 0, 0, 0, time.UTC) }
+	rootSpans := [][2]time.Time{{}, {day(2005, 3, 1), day(2012, 3, 1)}, {day(2010, 12, 31), day(2013, 12, 31)}, {day(2009, 6, 1), day(2014, 1, 1)},
+		{day(2011, 1, 1), day(2013, 6, 1)}, {day(2011, 1, 1), day(2016, 1, 1)}, {day(1999, 1, 1), day(2019, 1, 1)}, {day(2015, 1, 1), day(2025, 1, 1)}}
 	for _, rb := range rootBases {
-		for _, key := range loadRootKeys() {
-			k++
-			if !stats.Mine(k) {
-				continue
+		for ki, key := range loadRootKeys() {
+			for si, span := range rootSpans {
+				k++
+				if !stats.Mine(k) {
+					continue
+				}
+				_ = ki
+				base := co.Certs[rb]
+				v, err := gen.ViewCert(base.DER)
+				if err != nil {
+					continue
+				}
+				if si > 0 {
+					v.SetValidity(span[0], span[1], gen.UTCZ)
+					rec.Class("root_validity_varied")
+				}
+				v.SetSPKI(gen.RSASPKI(key.N, big.NewInt(int64(key.E))))
+				v.SetInnerAlg(gen.AlgID(gen.OIDSHA256WithRSA, true))
+				v.SetOuterAlg(gen.AlgID(gen.OIDSHA256WithRSA, true))
+				h := sha256.Sum256(v.TBS.Encode())
+				sig, err := rsa.SignPKCS1v15(nil, key, crypto.SHA256, h[:])
+				if err != nil {
+					continue
+				}
+				v.SetSignatureBytes(sig)
+				der := v.DER()
+				if pc, ok := gen.ParseCert(der); !ok || !pc.SelfSigned {
+					rec.Class("root_not_selfsigned")
+					continue
+				}
+				judge(t.Fatalf, c16Case{DER: der, Base: base.Name, N: key.N.String(), E: int64(key.E), How: "self-signed-root"}, nil)
 			}
-			base := co.Certs[rb]
-			v, err := gen.ViewCert(base.DER)
-			if err != nil {
-				continue
-			}
-			v.SetSPKI(gen.RSASPKI(key.N, big.NewInt(int64(key.E))))
-			v.SetInnerAlg(gen.AlgID(gen.OIDSHA256WithRSA, true))
-			v.SetOuterAlg(gen.AlgID(gen.OIDSHA256WithRSA, true))
-			h := sha256.Sum256(v.TBS.Encode())
-			sig, err := rsa.SignPKCS1v15(nil, key, crypto.SHA256, h[:])
-			if err != nil {
-				continue
-			}
-			v.SetSignatureBytes(sig)
-			der := v.DER()
-			if pc, ok := gen.ParseCert(der); !ok || !pc.SelfSigned {
-				rec.Class("root_not_selfsigned")
-				continue
-			}
-			judge(t.Fatalf, c16Case{DER: der, Base: base.Name, N: key.N.String(), E: int64(key.E), How: "self-signed-root"}, nil)
 		}
 	}
 	rec.Exhaustive("divisors 2..769, bit-length thresholds x exponents, self-signed roots", true)
